@@ -28,6 +28,11 @@ VARIANT_OF = {
 def run(ctx, env):
     prog = env.prog("default")
     an = An(prog)
+    ctx.rule("R9.5", "V9 templates: every parsed template reaches the cache by an overwriting write on every path, and the template reported in the result is the parsed one (shared with C06 R6.8)")
+    ctx.rule("R9.4", "the remainder returned by the record decoder (it becomes padding) advances once per complete record, never inside a nested per-field repetition")
+    reexport.cursor_atomicity_rule(ctx, prog, an, "R9.4", "variable_versions::v9::Data::parse_be")
+    from . import c06 as _c06
+    _c06.rule_template_reaches_cache(ctx, prog, an, "R9.5", only_adt="variable_versions::v9::V9Parser")
     ctx.rule("R9.1", "every wire-bearing field the V9 parser fills is emitted by V9::to_be_bytes under the matching flowset kind, in wire order, with the parsed width; derived fields are not emitted; nothing unclassifiable is emitted")
     ctx.rule("R9.2", "value codec table: for each FieldDataType, decoder (consumed width, transform chain, constructed variant) and the encoder arm of that variant are an inverse pair")
     ctx.rule("R9.3", "the data-record values are emitted by iterating records then fields in stored (index) order, followed by the stored padding")
